@@ -532,6 +532,57 @@ fn boxed(ctx: &mut Ctx) {
             judge(ctx, "EFIMemoryMapTag::new_from_descs", "", got, &want, decode::tag(bi::EFI_MMAP, &want, true, true), false);
         });
     }
+    // contents with internal relations: texts with interior / repeated NULs, areas and descriptors that are equal,
+    // contiguous, overlapping, empty or wrap around (a constructor that normalises, merges or cuts is not spec-exact)
+    {
+        const SYMS: [&str; 3] = ["a", "\0", "\u{e9}"];
+        for len in 0..=4usize {
+            for code in 0..3usize.pow(len as u32) {
+                let text: String = (0..len).map(|i| SYMS[(code / 3usize.pow(i as u32)) % 3]).collect();
+                let mut want_c = text.as_bytes().to_vec();
+                if want_c.last() != Some(&0) {
+                    want_c.push(0);
+                }
+                for (name, kind) in [("CommandLineTag::new", bi::CMDLINE), ("BootLoaderNameTag::new", bi::BOOTLOADER), ("ModuleTag::new", bi::MODULE)] {
+                    leaf!(ctx, name, format!("text {:?} (symbols a / NUL / e-acute)", text), |ctx| {
+                        let want = if kind == bi::MODULE { bi::enc_module(0x1000, 0x2000, &want_c) } else { bi::enc_string(kind, &want_c) };
+                        let got = ctx.call("new", || match kind {
+                            bi::CMDLINE => { let t = CommandLineTag::new(&text); built_bi(ctx_dummy(), &*t, &|_, _| {}) }
+                            bi::BOOTLOADER => { let t = BootLoaderNameTag::new(&text); built_bi(ctx_dummy(), &*t, &|_, _| {}) }
+                            _ => { let t = ModuleTag::new(0x1000, 0x2000, &text); built_bi(ctx_dummy(), &*t, &|_, _| {}) }
+                        });
+                        judge(ctx, name, &format!("{:?}", text), got, &want, vec![], false);
+                    });
+                }
+            }
+        }
+        let area_alpha: [(u64, u64, u32); 7] = [(0x1000, 0x1000, 1), (0x2000, 0x1000, 1), (0x2000, 0x1000, 2), (0x3000, 0, 1), (0, 0, 1), (0xFFFF_FFFF_FFFF_E000, 0x1000, 1), (0x10_0000, 0x10_0000, 1)];
+        let maxlen = if ctx.quick() { 3 } else { 4 };
+        for len in 1..=maxlen {
+            for code in 0..7usize.pow(len as u32) {
+                let seq: Vec<(u64, u64, u32)> = (0..len).map(|i| area_alpha[(code / 7usize.pow(i as u32)) % 7]).collect();
+                leaf!(ctx, "MemoryMapTag::new", format!("areas {:x?} (base, length, type)", seq), |ctx| {
+                    let areas: Vec<MemoryArea> = seq.iter().map(|&(b, l, t)| MemoryArea::new(b, l, if t == 1 { MemoryAreaType::Available } else { MemoryAreaType::Reserved })).collect();
+                    let ents: Vec<(u64, u64, u32, u32)> = seq.iter().map(|&(b, l, t)| (b, l, t, 0)).collect();
+                    let want = bi::enc_mmap(24, 0, &ents);
+                    let got = ctx.call("new", || { let t = MemoryMapTag::new(&areas); built_bi(ctx_dummy(), &*t, &|b, t| battery::mmap(b, t)) });
+                    judge(ctx, "MemoryMapTag::new", "", got, &want, decode::tag(bi::MMAP, &want, true, true), false);
+                });
+                leaf!(ctx, "EFIMemoryMapTag::new_from_descs", format!("descriptors {:x?} (phys start, pages * 4096, type)", seq), |ctx| {
+                    let descs: Vec<EFIMemoryDesc> = seq.iter().map(|&(b, l, t)| EFIMemoryDesc { ty: EFIMemoryAreaType(6 + t), phys_start: b, virt_start: 0, page_count: l / 4096, att: EFIMemoryAttribute::from_bits_retain(0xF) }).collect();
+                    let mut map = Vec::new();
+                    for &(b, l, t) in &seq {
+                        map.extend(bi::enc_efi_desc(6 + t, b, 0, l / 4096, 0xF));
+                    }
+                    let want = bi::enc_efi_mmap(40, 1, &map);
+                    let n = seq.len();
+                    let got = ctx.call("new", || { let t = EFIMemoryMapTag::new_from_descs(&descs); built_bi(ctx_dummy(), &*t, &|b, t| battery::efi_mmap(b, t)) });
+                    let got = match got { Out::Val(mut g) => { for i in 0..n { let o = 16 + 40 * i + 4; if g.bytes.len() >= o + 4 { g.bytes[o..o + 4].copy_from_slice(&[0; 4]); } } Out::Val(g) } p => p };
+                    judge(ctx, "EFIMemoryMapTag::new_from_descs", "", got, &want, decode::tag(bi::EFI_MMAP, &want, true, true), false);
+                });
+            }
+        }
+    }
     // framebuffer: three colour-info variants, palette lengths 0..=8
     for a in tuples(&[8, 4, 4, 4, 1]) {
         for variant in (0..(2 + 9)).chain([2 + 254, 2 + 255, 2 + 256, 2 + 257, 2 + 1000, 2 + 65535]) {
@@ -597,6 +648,7 @@ fn boxed(ctx: &mut Ctx) {
 fn run(ctx: &mut Ctx) {
     let arena = Arena::new(1);
     ctx.bound("sized", "every sized constructor of both crates: a marker argument tuple, {0,1,MAX,MAX-1,0x80..} per argument, every single-byte perturbation of every argument with {00,01,02,04,08,10,20,40,80,FF}; enumerated arguments over all variants; as_bytes() at every address residue the type's alignment permits");
+    ctx.bound("boxed_relational", "heap constructors with related contents: every text of length <= 4 over {a, NUL, e-acute} for the three string kinds (interior, leading, repeated, trailing NULs); every sequence of 1..=3 (thorough: 4) memory areas / EFI descriptors over 7 ranges that are equal, contiguous, overlapping, empty, of different type or end just below 2^64");
     ctx.bound("boxed_bound", "heap constructors: content lengths 0..=24 (quick) / 0..=40 (every padding residue at least three times) and the lengths around 8- and 16-bit counter boundaries (254..257, 4095..4097, 65534..65537); 0..=4, 10, 11, 255..257 memory areas / EFI descriptors; three framebuffer colour-info variants with palettes of 0..=8, 254..257, 1000 and 65535 colours; 0..=24, 255..257, 16383, 16384 information requests");
     sized_boot(ctx, &arena);
     sized_header(ctx, &arena);
